@@ -580,6 +580,14 @@ def read_bash_dump(script, dumps, cmdname='cmd'):
     main = None
     pending_shape = None
     pre = '_%s_subword_' % cmdname
+    res['declared'] = {}
+    pending_names = set()
+    for name, fr in dumps:
+        if name.startswith(pre + 'shape_'):
+            pending_names = set(fr)
+        elif name.startswith(pre) and name[len(pre):].isdigit():
+            res['declared'][int(name[len(pre):])] = set(fr) | pending_names
+            pending_names = set()
     for name, fr in dumps:
         if name == '__query__':
             continue
